@@ -8,7 +8,8 @@ import GmqttVerif.Model.AList
   * cumulative `uint64` counters are `Nat` (no run gets near 2^64); the gauges (`InflightCurrent`, `QueuedCurrent`,
     `ActiveCurrent`, `InactiveCurrent`), which the code decrements by adding `^uint64(delta-1)`, are `Int`:
     the uint64 the code holds is this integer modulo 2^64, so "negative" here = "wrapped below zero" there.
-  * `Fix` selects, defect by defect, between the code as it is (all false) and the repaired code (all true):
+  * `Fix` selects, defect by defect, between the code as it was in the snapshot (all false; finding F34) and the code
+    since the fixes 0d86327 / 263342d (all true):
       qos      per-client messages received / sent are counted under their own QoS (as is: always under QoS 0)
       delta    addInflight adds `delta` to the global gauge (as is: adds 1)
       release  sessionTerminated gives the session's queued / in-flight gauges back to the global ones (as is: never)
